@@ -366,11 +366,13 @@ Proved: the mixing clause at full strength for every reachable configuration of 
 request threads (`C15_reinit_no_mixing`); for the stop clause the two step-level facts that carry it —
 the new generator is installed only after the join with the old prefetch thread, which is enabled only
 when that thread is at its final pc (`C15_reinit_stop_joins`), and the stop's `notify_all` releases every
-request parked on the old queue (`C15_reinit_stop_wakes`).  Not proved in Lean: that an old generator
-whose stop is skipped because it is already `exhausted` has a prefetch thread past its last `put`
-(it is inside `_stop_enqueue`), and "no handler stays blocked for ever" (liveness).  Both are decided on
-the real code by the scheduler-driven oracle (any thread left blocked is reported with its schedule)
-and on the model by exhaustive exploration of small configurations.  (For the configuration with ONE client
+request parked on the old queue (`C15_reinit_stop_wakes`).  That an old generator whose stop is skipped
+because it is already `exhausted` has a prefetch thread past its last `put` (it is inside `_stop_enqueue`)
+is proved in `Properties/C15Multi.lean` (`C15_skipped_stop_producer_past`).  Not proved in Lean at full
+strength: "no handler stays blocked for ever" (liveness) with several concurrent requests — the server-level
+half is (`C15_multi_dead_shape_partial`), the queue-level half is decided on the real code by the
+scheduler-driven oracle (any thread left blocked is reported with its schedule) and on the model by
+exhaustive exploration of small configurations.  (For the configuration with ONE client
 "no request stays blocked for ever" is a theorem: `C15_no_deadlock`, `C15_terminates` above.)
 -/
 
